@@ -193,7 +193,7 @@ CHECKS["C02"] = {
                        "ZZ_C02_CreatePDR:C02.fd.uplink", "ZZ_C02_CreatePDR:C02.fd.downlink",
                        "ZZ_C02_CreateFAR:C02.far.done", "ZZ_C02_UpdateFAR:C02.far.done", "ZZ_C02_RemoveFAR:C02.rmfar.done",
                        "ZZ_C02_UpdateFAR:C02.far.update-of-buffering-far"]},
-    "bounds": {"quick": "Create/Update/Remove PDR and FAR with every IE payload byte, the SEID and the link index symbolic; PDR: 3 presence profiles (maximal with 2 QER ids, 2 URR ids, 2 SDF filters one of which carries a concrete flow description; minimal; typical) x 6 permutations of 4 child blocks x PDI children plain/reversed; FAR: 3 profiles (Apply Action 1/2 octets, outer header creation GTP-U or UDP, forwarding policy, SMReq flags, BAR id) x 6 permutations; Update FAR both against a kernel that does not know the FAR and against one where it is buffering with a related PDR and QER (so that the buffer-release lookups run before the update request, which must still address the FAR named in the IE)",
+    "bounds": {"quick": "Create/Update/Remove PDR and FAR with every IE payload byte, the SEID and the link index symbolic; PDR: 3 presence profiles (maximal with 2 QER ids, 2 URR ids, 2 SDF filters one of which carries a concrete flow description while the other may carry ToS traffic class, SPI and flow label (each present or absent, symbolic octets) in front of its filter id; minimal; typical) x 6 permutations of 4 child blocks x PDI children plain/reversed; FAR: 3 profiles (Apply Action 1/2 octets, outer header creation GTP-U or UDP, forwarding policy, SMReq flags, BAR id) x 6 permutations; Update FAR both against a kernel that does not know the FAR and against one where it is buffering with a related PDR and QER (so that the buffer-release lookups run before the update request, which must still address the FAR named in the IE)",
                "thorough": "24 permutations, plus all 64x27 PDR and 9x16 FAR presence subsets in canonical order"},
     "outside": "IPv6 variants, IEs the driver ignores (Network Instance, Application ID, Ethernet filters), IE lengths other than nominal (malformed input is C07), symbolic flow descriptions (C16)",
     "assumptions": FWD_ASSUME,
